@@ -37,6 +37,7 @@ impl Monitor for C06 {
             ("checks_after_open_of_a_call_boundary_crash_image", tier.pick(10_000, 200_000)),
             ("checks_after_open_of_a_crash_image_with_buffered_tail_lost", tier.pick(1_000, 20_000)),
             ("checks_after_open_of_a_crash_image_right_after_roll_over", tier.pick(1_000, 20_000)),
+            ("checks_on_a_log_continued_after_a_crash_inside_roll_over", tier.pick(5_000, 100_000)),
             ("checks_where_files_were_unlinked", tier.pick(200, 4_000)),
             ("checks_where_nothing_could_be_unlinked", tier.pick(50, 1_000)),
             ("checks_with_3_or_more_files_present", tier.pick(1_000, 20_000)),
@@ -44,7 +45,7 @@ impl Monitor for C06 {
         ]
     }
     fn rule(&self) -> String {
-        "case = one generated multi-queue history (gc/idle/delete/mixed/huge profiles, any persist policy, restarts); evaluation = one check after a truncate / delete_queue / open: (1) the WAL files present are a contiguous run of numbers ending at the file most recently written, (2) none is older than min(file that was current when the oldest retained record's append began, file that was current when this call began), (3) the file of every retained record is present, (4) disk_used_bytes == sum of file sizes; 'current file' is read off the syscall trace; one call boundary in twelve, and every append that rolled over (with the newest file put back to zeros: the crash point right after it was created and sized), is also copied as a process-crash image (under lazy policies without the still-buffered tail) and opened in a side directory, where the same checks apply to the recovered log; distinct_nontrivial = distinct (present file set, oldest pinned file, number of retained records) among checks with >= 2 files present or an unlink in the call".into()
+        "case = one generated multi-queue history (gc/idle/delete/mixed/huge profiles, any persist policy, restarts); evaluation = one check after a truncate / delete_queue / open: (1) the WAL files present are a contiguous run of numbers ending at the file most recently written, (2) none is older than min(file that was current when the oldest retained record's append began, file that was current when this call began), (3) the file of every retained record is present, (4) disk_used_bytes == sum of file sizes; 'current file' is read off the syscall trace; one call boundary in twelve, and every append that rolled over (with the newest file put back to zeros: the crash point right after it was created and sized), (plus, for one roll-over in five, the crash point one step earlier - new file created but still 0 bytes long - on which an 11-call continuation rolls over into the pre-existing file and is checked for (1) and, whenever all files are fully sized, (4)) is also copied as a process-crash image (under lazy policies without the still-buffered tail) and opened in a side directory, where the same checks apply to the recovered log; distinct_nontrivial = distinct (present file set, oldest pinned file, number of retained records) among checks with >= 2 files present or an unlink in the call".into()
     }
     fn assumptions(&self) -> Vec<String> {
         vec!["the file current at a point in time = target of the most recent traced create/write on a WAL file; under lazy policies the harness issues persist(Flush) right after every call so that the trace is exact at call boundaries (this does not influence the library's GC decisions)".into()]
@@ -143,12 +144,62 @@ impl Monitor for C06 {
                     for b in img.files.get_mut(&n).unwrap().iter_mut() {
                         *b = 0;
                     }
+                    let mut unsized_img = img.clone();
+                    unsized_img.files.get_mut(&n).unwrap().clear();
                     crash_images.push(("right-after-roll-over-sized-the-new-file", img));
+                    // one step earlier: the new file exists but is still 0 bytes long
+                    if rng.chance(1, 5) {
+                        crash_images.push(("new-file-created-but-not-yet-sized", unsized_img));
+                    }
                 }
             }
             for (img_kind, img) in crash_images {
                 let before: Vec<u64> = img.files.keys().filter_map(|n| wal_number(n)).collect();
                 img.materialize(&side);
+                if img_kind == "new-file-created-but-not-yet-sized" {
+                    // The 0-byte file cannot be read, so the writer legitimately stays in the
+                    // previous file and the statement's bound does not apply at this open (see
+                    // DESIGN C06).  What must hold is that the log keeps its books straight when
+                    // it later rolls over into that pre-existing file: continue on the recovered
+                    // log and compare disk_used_bytes with the directory whenever every file
+                    // present is fully sized.
+                    if let Ok(mut s2) = crate::ops::Sut::open(&side, crate::ops::Policy::AlwaysFlush, key, false) {
+                        let q = "c06-continuation\u{1}".to_string();
+                        let chunk = (d.file_size as usize) * 2 / 5;
+                        let mut cont: Vec<Op> = vec![Op::Create { q: q.clone() }];
+                        for _ in 0..4 {
+                            cont.push(Op::Append { q: q.clone(), pos: None, lens: vec![chunk], chained: false });
+                        }
+                        cont.push(Op::Truncate { q: q.clone(), pos: 2 });
+                        for _ in 0..3 {
+                            cont.push(Op::Append { q: q.clone(), pos: None, lens: vec![chunk], chained: false });
+                        }
+                        cont.push(Op::Truncate { q: q.clone(), pos: 6 });
+                        cont.push(Op::Delete { q: q.clone() });
+                        for (j, op) in cont.iter().enumerate() {
+                            let out = s2.apply(2_000_000 + j, op);
+                            if matches!(out, Outcome::Err(_)) {
+                                break;
+                            }
+                            let present2 = list_wal_files(&side);
+                            let nums2: Vec<u64> = present2.iter().map(|f| f.0).collect();
+                            let disk2 = s2.log().resource_usage().disk_used_bytes as u64;
+                            let all_sized = present2.iter().all(|f| f.1 == d.file_size);
+                            acc.eval();
+                            acc.count("checks_on_a_log_continued_after_a_crash_inside_roll_over");
+                            let detail2 = |what: &str| json!({"history": d.history_json(400), "crash_image_taken_inside_call": st.op.to_json(), "crash_image_kind": img_kind, "continuation": crate::ops::ops_json(&cont[..=j]), "violated": what, "wal_files_present": present2.iter().map(|f| json!({"number": f.0, "size": f.1})).collect::<Vec<_>>(), "disk_used_bytes": disk2});
+                            if nums2.is_empty() || !nums2.windows(2).all(|w| w[1] == w[0] + 1) {
+                                acc.violation("C06/files-not-a-contiguous-run/continued-after-crash-inside-roll-over", case, detail2("(1) contiguous run"));
+                                return;
+                            }
+                            if all_sized && disk2 != present2.iter().map(|f| f.1).sum::<u64>() {
+                                acc.violation("C06/disk_used_bytes-mismatch/continued-after-crash-inside-roll-over", case, detail2("(4) disk accounting"));
+                                return;
+                            }
+                        }
+                    }
+                    continue;
+                }
                 if let Ok(s2) = crate::ops::Sut::open(&side, crate::ops::Policy::AlwaysFlush, key, false) {
                     if let Ok(snap2) = Snapshot::take(s2.log()) {
                         let mut min_born2: Option<u64> = None;
